@@ -63,6 +63,10 @@ StreamCases == \A body \in {0, 1, 2, 17} : \A pre \in SeqsOfLen(Sizes, 3) : \A r
           out |-> [ok |-> TRUE, single_read_gets |-> FirstRead(pre \o <<rest>>, HeaderLen + body)]])
 StreamBad == \A keep \in {0, 1, 8, 15} : \A rest \in {1, 1000} :
     Emit([fn |-> "streambad", s |-> <<>>, a |-> <<keep, rest>>, out |-> <<>>])
+\* two stream encryptions in flight at once (the functions are package-level and keep no state of their own): the writer
+\* of the first call is held inside its first Write while a second call runs to completion; both must round-trip
+StreamOverlap == \A n \in {0, 5, 40} : \A m \in {0, 17} : Emit([fn |-> "streamoverlap", s |-> <<>>, a |-> <<n, m>>, out |-> <<>>])
+ASSUME StreamOverlap
 ASSUME RtCases
 ASSUME OpensslForms
 ASSUME TamperCases
